@@ -500,6 +500,23 @@ def main(ctx: Ctx) -> int:
             prebuilt[len(descs)] = bnet
             descs.append(desc)
         cov["bundled_networks"] = len(prebuilt)
+    if pid == "C03":
+        # the matrix as the linear solver sees it over the object's whole life (Init / Reset / Solve / Finalize): Lifecycle.tla
+        import lifecycle
+        plain = [d for d in descs if d.get("origin") == "random" and not any(d.get(k) for k in ("cooling", "heating_user", "cooling_user", "ode_modifier", "rate_modifier"))
+                 and 2 <= len(d["reactions"]) <= 6]
+        lnets = []
+        for d in plain[: (2 if ctx.quick else 6)]:
+            try:
+                # the whole project is compiled here: every element gets its atom as a declared species, so that the abundance
+                # renormalisation routine (C16's subject, known finding element-without-atom) is well-formed
+                used = {x for r, p in d["reactions"] for x in r + p if x in POOL} | {x for x in d.get("required", []) if x in POOL}
+                atoms = sorted({el for x in used for el in POOL[x][0]})
+                d2 = dict(d, required=list(d.get("required", [])) + [a for a in atoms if a not in used and a not in d.get("required", [])])
+                lnets.append((str(d["reactions"])[:120], build_network(d2)))
+            except Exception:   # noqa  (reported by the main loop below)
+                pass
+        cov.update(lifecycle.run(ctx, rng, lnets, pid))
     traces, meta = [], {}
     tid = 0
     malformed = 0
